@@ -35,7 +35,10 @@ def cliLine (toks : List String) : String :=
         if upload then
           let sc : SCfg := { b := c'.blocksize, w := c'.windowsize, timeout := c'.timeoutS * 1000, rep := 1 }
           let burst := (sInit sc fileContent false).2
-          s!"req={req} ; res=ok ; conv={if burst.isEmpty then "-" else showGroup burst} ; file=none ; extra=-"
+          -- script `R`: the peer stays silent for one negotiated timeout: the window is sent again (`sStep .fail` after `timeout` ms)
+          let again := (sStep sc (sInit sc fileContent false).1 .fail sc.timeout).2
+          let retx := if script = "R" then s!" R{again.length}" else ""
+          s!"req={req} ; res=ok ; conv={if burst.isEmpty then "-" else showGroup burst}{retx} ; file=none ; extra=-"
         else
           let rc : RCfg := { b := c'.blocksize, w := c'.windowsize, rep := 1, cleanOnError := clean = "1" }
           let lens : List Nat := if script = "-" then [] else (script.splitOn ",").filterMap (·.toNat?)
